@@ -369,7 +369,10 @@ def gen_cases(quick):
         yield "hello.client", (lambda cid=cid: check_hello(D.GeckoHelloProtocolHandler.client(cid), wire.hello(cid), "client", cid))
     names = ["Spa", "", "My|Spa", "|", "a|b|c", "Caf\xe9", "\xff\xfe", "x" * 100, "<HELLO>", "A\nB"]
     names += [chr(c) for c in range(1, 256)]
-    for sid in (SPA, b"SPA\xe9\x01", b"S"):
+    # names that contain the words the protocol uses elsewhere: client platform tags, verbs, the broadcast body
+    names += ["GRAND SPA", "ISLAND", "STUDIOS", "BIOSPHERE", "AND", "IOS", "ANDY's", "Spa AND Sauna", "IOSspa", "x IOS", "1", "SPA", "SPA01",
+              "APING", "STATV", "My SPA|IOS", "and ios"]
+    for sid in (SPA, b"SPA\xe9\x01", b"S", b"SPAND:IOS:01"):
         for nm in names:
             yield "hello.response", (lambda sid=sid, nm=nm: check_hello(
                 D.GeckoHelloProtocolHandler.response(sid, nm), wire.hello_reply(sid, nm), "response", (sid, nm)))
